@@ -2,8 +2,8 @@
 # usage: verify_mutant.sh <Cxx> : independent confirmation of a sub-agent's seeded change
 # (fresh scratch worktree, suite unchanged, demo fails with / passes without), removes the scratch tree
 set -u
-id=$1; src=/tmp/mut3/$id; wt=/tmp/mutv3/$id
-rm -rf $wt; mkdir -p /tmp/mutv3
+id=$1; root=${MUTROOT:-/tmp/mut4}; src=$root/$id; wt=${root}v/$id
+rm -rf $wt; mkdir -p ${root}v
 git -C /repo worktree add -q --detach $wt HEAD || exit 2
 cd $wt
 export CARGO_TARGET_DIR=$wt/target CARGO_NET_OFFLINE=true
